@@ -34,9 +34,15 @@ pub struct Hub {
     pub log: Rc<RefCell<Vec<LogEntry>>>,
     pub failing: Rc<RefCell<BTreeMap<&'static str, bool>>>,
     pub counter: Rc<RefCell<u64>>,
+    /// what accepting modules answer with: bit 0 = no data, bit 1 = no events
+    pub shape: Rc<RefCell<u8>>,
 }
 
 impl Hub {
+    fn answer(&self, events: Vec<cosmwasm_std::Event>, data: &[u8]) -> AppResponse {
+        let shape = *self.shape.borrow();
+        AppResponse { events: if shape & 2 == 0 { events } else { vec![] }, data: if shape & 1 == 0 { Some(Binary::from(data.to_vec())) } else { None } }
+    }
     fn fails(&self, m: &'static str) -> bool {
         self.failing.borrow().get(m).copied().unwrap_or(false)
     }
@@ -81,7 +87,7 @@ impl<E: std::fmt::Debug, Q: std::fmt::Debug, S: std::fmt::Debug> Module for Rec<
         if self.hub.fails(self.name) {
             anyhow::bail!("recording module {} is configured to fail", self.name);
         }
-        Ok(AppResponse { events: vec![cosmwasm_std::Event::new("rec").add_attribute("module", self.name)], data: Some(Binary::from(self.name.as_bytes().to_vec())) })
+        Ok(self.hub.answer(vec![cosmwasm_std::Event::new("rec").add_attribute("module", self.name)], self.name.as_bytes()))
     }
 
     fn query(&self, _api: &dyn Api, _storage: &dyn Storage, _querier: &dyn Querier, _block: &BlockInfo, request: Q) -> AnyResult<Binary> {
@@ -157,7 +163,7 @@ impl Stargate for RecStargate {
         if self.hub.fails("stargate") {
             anyhow::bail!("recording stargate handler is configured to fail");
         }
-        Ok(AppResponse { events: vec![], data: Some(Binary::from(b"stargate".to_vec())) })
+        Ok(self.hub.answer(vec![], b"stargate"))
     }
     fn query_stargate(&self, _api: &dyn Api, _storage: &dyn Storage, _querier: &dyn Querier, _block: &BlockInfo, path: String, data: Binary) -> AnyResult<Binary> {
         self.hub.record("stargate", "query", None, format!("stargate {} {}", path, hex(&data)));
@@ -176,7 +182,7 @@ impl Stargate for RecStargate {
         if self.hub.fails("stargate") {
             anyhow::bail!("recording stargate handler is configured to fail");
         }
-        Ok(AppResponse { events: vec![], data: Some(Binary::from(b"any".to_vec())) })
+        Ok(self.hub.answer(vec![], b"any"))
     }
     fn query_grpc(&self, _api: &dyn Api, _storage: &dyn Storage, _querier: &dyn Querier, _block: &BlockInfo, request: GrpcQuery) -> AnyResult<Binary> {
         self.hub.record("stargate", "query", None, format!("grpc {} {}", request.path, hex(&request.data)));
@@ -401,6 +407,7 @@ pub fn exec_cell(w: &mut RWorld, k: Kind, origin: Origin, ent: Ent, mode: RMode,
         return None; // cannot be expressed in the Empty message type
     }
     let to = w.puppets[2].clone();
+    *w.hub.shape.borrow_mut() = ((n ^ (n >> 2) ^ (n >> 5) ^ (n >> 9)) % 4) as u8;
     let msg = make_msg(k, n, &to);
     let sibling = if with_sibling && origin != Origin::Top { Some(make_msg(if k == Kind::Ibc { Kind::Gov } else { Kind::Ibc }, n + 1000, &to)) } else { None };
     let sibling_module = sibling.as_ref().map(|_| if k == Kind::Ibc { "gov" } else { "ibc" });
@@ -494,15 +501,22 @@ pub fn exec_cell(w: &mut RWorld, k: Kind, origin: Origin, ent: Ent, mode: RMode,
         if !rawstate::diff(&before, &after).iter().any(|l| l.contains(&format!("rec{}/", module))) {
             return Some(("accepted-module-effect-lost".into(), format!("{}: marker of {} missing", ctx, module)));
         }
-        if origin != Origin::Top && mode == RMode::Always {
-            // the reply carries what the module returned
-            let want: Vec<u8> = match k {
-                Kind::Stargate => b"stargate".to_vec(),
-                Kind::Any => b"any".to_vec(),
-                _ => module.as_bytes().to_vec(),
+        if origin != Origin::Top && (mode == RMode::Always || mode == RMode::Success) {
+            // the reply carries what the module returned (whatever that is: data, events, both or nothing)
+            let shape = *w.hub.shape.borrow();
+            let want: Option<Vec<u8>> = if shape & 1 != 0 {
+                None
+            } else {
+                Some(match k {
+                    Kind::Stargate => b"stargate".to_vec(),
+                    Kind::Any => b"any".to_vec(),
+                    _ => module.as_bytes().to_vec(),
+                })
             };
-            let ok = trace.iter().any(|t| matches!(&t.reply, Some((2, _, ReplySeen::Ok { data, .. })) if data.as_ref().map(|d| d.to_vec()) == Some(want.clone())));
+            let want_event = shape & 2 == 0 && !matches!(k, Kind::Stargate | Kind::Any);
+            let ok = trace.iter().any(|t| matches!(&t.reply, Some((2, _, ReplySeen::Ok { data, events })) if data.as_ref().map(|d| d.to_vec()) == want && events.iter().any(|e| e.ty == "rec") == want_event));
             rep.bump("c17/reply_data_from_module_checked");
+            rep.bump(&format!("c17/reply_after_module_answer/{}{}", if shape & 1 == 0 { "data" } else { "no-data" }, if shape & 2 == 0 { "+events" } else { "+no-events" }));
             if !ok {
                 return Some(("module-response-not-delivered-to-reply".into(), format!("{}: trace replies {:?}", ctx, trace.iter().filter_map(|t| t.reply.clone()).collect::<Vec<_>>())));
             }
